@@ -2,6 +2,7 @@
 Driver glue for the `codec` / `decoder` engines, and the executable oracles of C09 / C10.
 -/
 import ProfiVerif.Driver.Util
+import ProfiVerif.Model.TelegramSpec
 
 namespace PV.Driver
 open PV
@@ -91,6 +92,92 @@ def oracleC09 (op obs : String) : Option (String × String) :=
         if obs = want then none else some ("C09", s!"function code byte: want `{want}`")
       | none => if obs.startsWith "err" then none else some ("C09", "invalid function code byte accepted")
     | none => none
+  | _ => none
+
+end PV.Driver
+
+namespace PV.Driver
+open PV
+
+/-- Model side of the `decoder` engine (ops `dec`, `decx`, `sub`). -/
+def stepDecoder (w : List String) : Option String :=
+  match w with
+  | ["dec", hex] => (hexToBytes hex).map fun bs => showDecoded (deserialize bs)
+  | ["decx", hex, ext] =>
+    match hexToBytes hex, hexToBytes ext with
+    | some bs, some e => some s!"{showDecoded (deserialize bs)} | {showDecoded (deserialize (bs ++ e))}"
+    | _, _ => some "bad-op"
+  | ["sub", hex, i, v, ext] =>
+    match hexToBytes hex, i.toNat?, u8? v, hexToBytes ext with
+    | some f, some i, some v, some e =>
+      some s!"{showDecoded (deserialize f)} | {showDecoded (deserialize (f.set i v ++ e))}"
+    | _, _, _, _ => some "bad-op"
+  | _ => none
+
+/-! ### Oracle C10 — `Props/C10.lean` evaluated on the implementation's verdicts -/
+
+/-- Independent re-validation of an `accept n <telegram>` verdict against the raw bytes: the first `n`
+bytes must be a well-formed frame (`decodeSpec` is the proven-equal flat spec; here we only use the
+*wire-format* facts: start code, lengths, checksum, end delimiter) and denote that telegram. -/
+def acceptOk (bs : Bytes) (obs : String) : Bool :=
+  match decodeSpec bs with
+  | .accept t n => obs == s!"accept {n} {showTelegram t}" && 1 ≤ n && n ≤ bs.length
+  | _ => false
+
+def verdictKind (obs : String) : String := (obs.splitOn " ").headD ""
+
+def oracleVerdict (bs : Bytes) (obs : String) : Option (String × String) :=
+  let k := verdictKind obs
+  if k = "panic" then some ("C10", "decoder panicked")
+  else if k = "needmore" then
+    match announced bs with
+    | some n => if bs.length < n then none else some ("C10", s!"asks for more although {bs.length} ≥ announced {n}")
+    | none => some ("C10", "asks for more although the input announces no frame")
+  else if k = "reject" then
+    -- a reject is wrong only if the bytes are a complete well-formed frame
+    match decodeSpec bs with
+    | .accept _ _ => some ("C10", "well-formed frame rejected")
+    | .needMore => some ("C10", "proper prefix rejected")
+    | _ => none
+  else if k = "accept" then
+    if acceptOk bs obs then none else some ("C10", "accepted something that is not a well-formed frame / wrong telegram or length")
+  else some ("C10", s!"unknown verdict {obs}")
+
+def isStartCode (v : UInt8) : Bool := v == SC || v == SD4 || v == SD1 || v == SD2 || v == SD3
+
+def oracleC10 (op obs : String) : Option (String × String) :=
+  match splitWords op with
+  | ["dec", hex] =>
+    match hexToBytes hex with
+    | some bs => oracleVerdict bs obs
+    | none => none
+  | ["decx", hex, ext] =>
+    match hexToBytes hex, hexToBytes ext, obs.splitOn " | " with
+    | some bs, some e, [o1, o2] =>
+      match oracleVerdict bs o1, oracleVerdict (bs ++ e) o2 with
+      | some f, _ => some f
+      | _, some f => some f
+      | none, none =>
+        if verdictKind o1 ≠ "needmore" ∧ o1 ≠ o2 then some ("C10", s!"verdict on a longer input contradicts the verdict on its prefix: {o1} vs {o2}")
+        else none
+    | _, _, _ => some ("C10", "malformed observation")
+  | ["sub", hex, i, v, ext] =>
+    match hexToBytes hex, i.toNat?, u8? v, hexToBytes ext, obs.splitOn " | " with
+    | some f, some i, some v, some e, [o1, o2] =>
+      let valid := (match decodeSpec f with
+        | .accept (.data _ _) n => n == f.length
+        | .accept .sc n => n == f.length
+        | _ => false)
+      if !valid ∨ i ≥ f.length ∨ v = f.getD i 0 then oracleVerdict (f.set i v ++ e) o2
+      else if verdictKind o1 ≠ "accept" then some ("C10", "valid frame not accepted")
+      else if verdictKind o2 = "accept" ∧ o2 ≠ o1 then
+        if i = 0 ∧ isStartCode v then some ("K1", "first byte replaced by another start code decodes as a different telegram")
+        else some ("C10", s!"single corrupted byte decoded as a different telegram: {o2}")
+      else if verdictKind o2 = "accept" ∧ ¬ (i = 0 ∧ isStartCode v) then
+        some ("C10", "frame with one corrupted byte accepted")
+      else if verdictKind o2 = "panic" then some ("C10", "decoder panicked")
+      else none
+    | _, _, _, _, _ => some ("C10", "malformed observation")
   | _ => none
 
 end PV.Driver
